@@ -378,6 +378,59 @@ def tls_cases(ctx):
     return out
 
 
+# ---- c19reuse: one TLS connector service, several requests ----------------------------------------
+class Reuse(TwoPhase):
+    """the model is stateless (C19_tls_name: the result depends on the request and the library's verdict for this certificate only):
+    the expected trace of a sequence of requests through ONE connector service is the sequence of the single-request results"""
+
+    def run(self, ctx, cases):
+        raw = run_lines([ctx.impl_bin, self.mode], cases, NCPU, self.timeout, "impl")
+        impl, steps, counts = [], [], []
+        for c, line in zip(cases, raw):
+            o, rest = split_oracle(line)
+            impl.append(rest)
+            f = tls_fields(c)
+            ids = f["certs"].split(",")
+            for cid in ids:
+                sc = "be=%s;io=mem;host=%s;cert=%s;sbe=r;pl=%s;seed=%s" % (f["be"], f["host"], cid, f["pl"], f["seed"])
+                steps.append("%s;oracle=%s" % (sc, ",".join(x for x in [o or "", tls_extra_oracle(sc)] if x)))
+            counts.append(len(ids))
+        out = run_lines([ctx.model_bin, "c19tls"], steps, NCPU, self.timeout, "model")
+        model, k = [], 0
+        for n in counts:
+            model.append("res=" + "/".join(x[4:] if x.startswith("res=") else x for x in out[k:k + n]))
+            k += n
+        return impl, model, cases
+
+
+def reuse_monitor(case, impl, model):
+    f = tls_fields(case)
+    host = bytes.fromhex(f["host"]).decode()
+    rs = impl.split("res=")[-1].split("/")
+    ids = f["certs"].split(",")
+    if len(rs) != len(ids):
+        return False
+    for r, cid in zip(rs, ids):
+        sans, issuer = IDENTS[int(cid)]
+        if r.startswith("OK"):
+            if not (issuer == 1 and covers(sans, host_name(host)) and "req=1" in r and "echo=1" in r):
+                return False
+        elif not r.startswith("ERR "):
+            return False
+    return True
+
+
+def reuse_cases(ctx):
+    hosts = ["a.test", "x.w.test", "b.test", "127.0.0.1"]
+    seqs = [[0, 1], [0, 2], [0, 4], [0, 0, 1], [1, 0, 2], [0, 5, 1, 0], [5, 3], [3, 5, 2], [0, 1, 0, 2, 5], [2, 0, 2], [4, 0, 4]]
+    out = []
+    for be in ("r", "o"):
+        for h in hosts:
+            for sq in seqs:
+                out.append("be=%s;host=%s;certs=%s;pl=%d;seed=%d" % (be, hx(h), ",".join(map(str, sq)), ctx.rng.choice([1, 100, 700, 5000]), ctx.rng.randrange(1000)))
+    return out
+
+
 # ---------------------------------------------------------------------------------------------
 def all_streams(ctx):
     hc, hdesc = host_cases(ctx)
@@ -406,7 +459,13 @@ def all_streams(ctx):
                 describe="%d URIs: 21 schemes (the 13 of the table, near misses and unknown ones) x 6 hosts x 7 port forms with http 0.2 and "
                          "http 1, plus authority-only and path-only forms; Host::hostname/port and ConnectInfo::new(uri).port()" % len(uc),
                 finding_key=lambda c, i, m: "uri")
-    return [s1, s2, s5], [s3, s4]
+    rc = reuse_cases(ctx)
+    s6 = Reuse("c19reuse", "c19reuse", rc, monitor=reuse_monitor, key=lambda c, i, m: "reuse:" + tls_fields(c)["be"] + tls_fields(c)["certs"],
+               nontrivial=lambda c, i: "OK" in i and "ERR" in i,
+               describe="%d sequences of 2..5 requests for one name through ONE TLS connector service (rustls 0.23 with 0-RTT enabled in the "
+                        "client configuration, OpenSSL) against servers that issue tickets and allow early data and present valid, wrong-name and "
+                        "untrusted certificates in turn: every result must be the single-request result" % len(rc))
+    return [s1, s2, s5], [s3, s4, s6]
 
 
 def check_idents(ctx):
